@@ -94,6 +94,22 @@ def b_rechunk_1d(n, c, c2, M, irregular):
     return out, {"shape": (n,), "src": "x"}
 
 
+def b_rechunk_2d_transpose(n, m, c, t, M, mn, irregular):
+    """(n, m) array with chunks (c, 1) rechunked to (1, t) under a tight budget: multi-stage plans with intermediate
+    arrays.  The geometry is forked by value up front (keeps the planner arithmetic linear); budgets stay symbolic."""
+    import warnings
+
+    c01._start()
+    n, m, c, t = sx.conc(n), sx.conc(m), sx.conc(c), sx.conc(t)
+    if c > n or t > m:
+        raise sx.Infeasible()
+    x = G.stub_array("x", (n, m), (c, 1), dtype="int8", spec=spec_with_mem(M))
+    with warnings.catch_warnings():
+        warnings.simplefilter("ignore")
+        out = x.rechunk((1, t), min_mem=mn, allow_irregular=bool(irregular))
+    return out, {"shape": (n, m), "src": "x"}
+
+
 def b_rechunk_2d(n, m, c, c2, d, d2, M, irregular):
     c01._start()
     sx.assume(c <= n)
